@@ -23,7 +23,7 @@ pub open spec fn chunk_of_opt(chunk_size: Option<usize>, buflen: int) -> int {
 pub uninterp spec fn read_invariant<R>(r: R) -> int;
 
 //@trusted T4 util::fill_buffer touches its source only through Read::read, hence leaves every read-invariant attribute (read_invariant) of the source unchanged
-//@trusted T4 util::fill_buffer at R := &mut R0: Ok(n) with n == min(chunk, |rest|), the first n octets of the buffer are the next n octets of the source, the source has advanced by n; Err: the source failed (proved in U70 by_ref)
+//@trusted T4 util::fill_buffer at R := &mut R0: Ok(n) with n == min(chunk, |rest|), the first n octets of the buffer are the next n octets of the source, the source has advanced by n; Err: the source failed (proved in U70 by_ref) (for sources honouring std's error contract, std_err(); proved under that precondition)
 #[verifier::external_body]
 pub fn fill_buffer<R: io::Read>(source: &mut R, buffer: &mut [u8], chunk_size: Option<usize>) -> (r: io::Result<usize>)
     requires
